@@ -124,6 +124,14 @@ func (w *world) apply(r *rep.Report, o op) error {
 		if err == nil {
 			w.m[o.Loc].Put(o.Id, f)
 		}
+	case "refusedOverwrite":
+		// a write over the id that the cron's add hook refuses (a `rule` that is not a rule body, a
+		// schedule that is not a string): it must be refused without any effect, also on the registrations
+		bad := []core.Map{{"rule": 5.0}, {"rule": map[string]interface{}{"schedule": 7.0, "action": map[string]interface{}{"code": "1"}}}}[len(w.run)%2]
+		_, aerr := w.locs[o.Loc].AddFact(ctx, o.Id, bad)
+		if aerr == nil {
+			err = fmt.Errorf("a fact the cron hook cannot take was accepted: %v", bad)
+		}
 	case "remRule":
 		_, err = w.locs[o.Loc].RemRule(ctx, o.Id)
 		if err == nil {
@@ -326,6 +334,19 @@ func campaign(r *rep.Report, e rep.Env) {
 			}
 		}
 	}
+	// directed: writes over a scheduled rule that the cron's add hook refuses
+	for _, kind := range drv.Kinds {
+		for _, persistent := range []bool{true, false} {
+			if w, err := newWorld(kind, persistent); err == nil {
+				for _, o := range []op{{Op: "addSched", Loc: "A", Id: "s1", Sched: "0 0 1 1 *", Ver: "v1"}, {Op: "refusedOverwrite", Loc: "A", Id: "s1"}, {Op: "refusedOverwrite", Loc: "A", Id: "s1"}} {
+					if err := w.apply(r, o); err != nil {
+						r.Violate("", "operation failed: "+err.Error(), rep.J{"state": kind, "history": w.run})
+					}
+					w.check(r, true)
+				}
+			}
+		}
+	}
 	for hi := 0; hi < nHist; hi++ {
 		g := gen.New(e.BatchSeed()*553105253 + int64(hi))
 		kind := drv.Kinds[hi%2]
@@ -365,7 +386,7 @@ func campaign(r *rep.Report, e rep.Env) {
 					o.Op = "remFact"
 				}
 			case k < 17:
-				o.Op = []string{"clear", "disable", "enable"}[g.Intn(3)]
+				o.Op = []string{"clear", "disable", "enable", "refusedOverwrite"}[g.Intn(4)]
 			default:
 				o.Op = "reload"
 			}
